@@ -435,8 +435,13 @@ SJ = z3.Function("safe_join", S, S, S)
 DIRNAME = z3.Function("os_path_dirname", S, S)
 
 _k, _i, _x, _f = z3.Int("k!def"), z3.Int("i!def"), z3.Const("x!def", Blob), z3.Const("f!def", Folder)
-PS = z3.RecFunction("pack_size_prefix_sum", I, I)             # sum of pack_sizes[:k]
-z3.RecAddDefinition(PS, [_k], z3.If(_k <= 0, 0, PS(_k - 1) + PSZ(_k - 1)))
+PS = z3.Function("pack_size_prefix_sum", I, I)                # sum of pack_sizes[:k] (uninterpreted + instantiated definition, see NUMPOS)
+
+
+def ps_def(i):
+    """defining equations of the prefix sum at 0 and at i (i >= 0), instantiated where needed (see NUMPOS)"""
+    return z3.And(PS(z3.IntVal(0)) == 0, z3.Implies(i >= 0, PS(i + 1) == PS(i) + PSZ(i)))
+
 # decoder chain, last coder first: CHAIN(f, x, i) = result after i decoding steps
 CHAIN = z3.RecFunction("decode_chain", Folder, Blob, I, Blob)
 z3.RecAddDefinition(CHAIN, [_f, _x, _i], z3.If(_i <= 0, _x, DEC(CID(_f, NCOD(_f) - _i), CPROP(_f, NCOD(_f) - _i),
@@ -466,10 +471,7 @@ _PS_CACHE = {}
 def prefix_sum_fn(F):
     key = F.name()
     if key not in _PS_CACHE:
-        P = z3.RecFunction(f"{key}_prefix_sum", I, I)
-        j = z3.Int("j!ps")
-        z3.RecAddDefinition(P, [j], z3.If(j <= 0, 0, P(j - 1) + F(j - 1)))
-        _PS_CACHE[key] = P
+        _PS_CACHE[key] = z3.Function(f"{key}_prefix_sum", I, I)       # prefix sums of F (uninterpreted; only differences are used)
     return _PS_CACHE[key]
 
 
@@ -569,6 +571,23 @@ class C10Executor(Executor):
                 n = ops.int_term(b)
                 x = items[0]
                 return [(st, VSeq(z3.If(n < 0, z3.IntVal(0), n), lambda i, x=x: x, x.kind))]
+        if op == "Mod" and isinstance(a, VStr) and a.const() is not None:
+            # 'literal %s ... %d' % value / tuple: plain %s / %d fields with str / int arguments
+            import re as _re
+            tpl = a.const()
+            fields = _re.findall(r"%(.)", tpl)
+            vals = list(b.items) if isinstance(b, VTuple) else [b]
+            if all(f in "sd%" for f in fields) and len([f for f in fields if f != "%"]) == len(vals) and \
+                    all(isinstance(v, (VStr, VInt)) for v in vals):
+                acc, k = z3.StringVal(""), 0
+                for piece in _re.split(r"(%.)", tpl):
+                    if piece in ("%s", "%d"):
+                        acc, k = z3.Concat(acc, self.to_str(st, vals[k]).t), k + 1
+                    elif piece == "%%":
+                        acc = z3.Concat(acc, z3.StringVal("%"))
+                    else:
+                        acc = z3.Concat(acc, z3.StringVal(piece))
+                return [(st, VStr(z3.simplify(acc)))]
         return super().binop(st, op, a, b, node, inplace)
 
     # -- `k in self._folder_to_files`, `self._folder_to_files[k]`
@@ -671,7 +690,62 @@ class C10Executor(Executor):
             k = self.concretize(st, args[0])
             if k is not None and k <= 64:
                 return [(st, VTuple([VInt(i) for i in range(max(k, 0))]))]
+        if len(args) == 3 and all(isinstance(a, VInt) for a in args) and args[2].const() == -1 and \
+                (args[0].const() is None or args[1].const() is None):
+            # range(hi, lo, -1): hi, hi-1, ..., lo+1
+            hi, lo = ops.int_term(args[0]), ops.int_term(args[1])
+            return [(st, VSeq(z3.If(hi - lo < 0, z3.IntVal(0), hi - lo), lambda i, hi=hi: VInt(hi - i), "int"))]
         return super().b_range(st, args, kwargs, node)
+
+    def b_next(self, st, args, kwargs, node):
+        """next(iterable_of_known_items[, default]) -- generator expressions are evaluated eagerly (concrete item lists)"""
+        items = self.concrete_items(st, args[0]) if args else None
+        if items is None:
+            return self.havoc_call(st, "next", args, node)
+        if items:
+            return [(st, items[0])]
+        if len(args) > 1:
+            return [(st, args[1])]
+        self.raise_in(st, self.mk_exc("StopIteration"))
+        return []
+
+    def str_method(self, st, s, name, args, kwargs, node):
+        """'...{}...{name}...'.format(args): literal template with plain fields and str / int arguments"""
+        if name == "format":
+            tpl = s.const()
+            parts = self._format_parts(tpl) if tpl is not None else None
+            if parts is not None:
+                acc, auto, ok = z3.StringVal(""), 0, True
+                for lit, field in parts:
+                    acc = z3.Concat(acc, z3.StringVal(lit))
+                    if field is None:
+                        continue
+                    if field == "":
+                        v, auto = (args[auto] if auto < len(args) else None), auto + 1
+                    elif field.isdigit():
+                        v = args[int(field)] if int(field) < len(args) else None
+                    else:
+                        v = kwargs.get(field)
+                    if not isinstance(v, (VStr, VInt)):
+                        ok = False
+                        break
+                    acc = z3.Concat(acc, self.to_str(st, v).t)
+                if ok:
+                    return [(st, VStr(z3.simplify(acc)))]
+        return super().str_method(st, s, name, args, kwargs, node)
+
+    @staticmethod
+    def _format_parts(tpl):
+        import string
+        try:
+            out = []
+            for lit, field, spec, conv in string.Formatter().parse(tpl):
+                if field is not None and (spec or conv or not (field == "" or field.isdigit() or field.isidentifier())):
+                    return None
+                out.append((lit, field))
+            return out
+        except ValueError:
+            return None
 
     def b_reversed(self, st, args, kwargs, node):
         v = args[0]
@@ -996,6 +1070,8 @@ def layout_contracts():
             conj.append(ok)
         elif lc.extra.get("phase") == "preserve":
             conj.append(z3.Not(HASF(i - 1)))
+        if lc.extra.get("phase") in ("init", "assume"):
+            lc.st.assume(ps_def(i))                      # definition of the prefix sum at 0 and at this folder index
         return z3.And(conj + [PS(i) >= 0])
 
     out.append(FnContract(
@@ -2436,11 +2512,43 @@ def table_check(repo, tier):
     bad = [e for e in tab if not (len(e) == 3 and published.get(e[0]) == e[1] and e[2] == len(e[0]))]
     need = {"zip", "7z", "tar.gz", "tar.bz2", "tar.xz"} - {e[1] for e in tab}
     obls = [ground_obligation("C10/archive_extractor.py::MAGIC_SIGNATURES/module-invariant#entries-are-published-magic-numbers-of-their-format",
-                              not bad and not need and b"PK\x03\x04" in [e[0] for e in tab], f"bad entries {bad[:3]}, missing {sorted(need)}", ARCH,
+                              not bad and not need and b"PK\x03\x04" in [e[0] for e in tab], f"bad entries {bad[:3]}, missing {sorted(need)}", ARCH, definite=False,
                               kind="module-invariant", backend="ground"),
             ground_obligation("C10/archive_extractor.py::TAR_MAGIC/module-invariant#ustar-at-257", tar_off == 257 and tar_magic == b"ustar",
-                              f"{tar_off} {tar_magic!r}", ARCH, kind="module-invariant", backend="ground")]
+                              f"{tar_off} {tar_magic!r}", ARCH, kind="module-invariant", backend="ground", definite=False)]
     return {"obligations": obls}
+
+
+_SHAPE_ERRORS = (AttributeError, KeyError, TypeError, IndexError, ValueError, AssertionError, z3.Z3Exception)
+
+
+def guarded(fn, what):
+    """a contract clause is pack code evaluated on values produced from the (possibly changed) source: a Python exception in it
+    means "this shape is not recognised" -> Unsupported (the function is reported OUT-OF-SUBSET / unknown, the native replayer decides)"""
+    if fn is None:
+        return None
+
+    def g(*a, **k):
+        try:
+            return fn(*a, **k)
+        except _SHAPE_ERRORS as e:
+            raise ops.Unsupported(f"{what}: shape not recognised ({type(e).__name__}: {str(e)[:120]})")
+    return g
+
+
+def guard_contract(c):
+    for attr in ("requires", "hyps", "returns", "result_maker", "frame", "yields"):
+        setattr(c, attr, guarded(getattr(c, attr, None), f"{c.target.split('::')[-1]}.{attr}"))
+    c.ensures = [(lab, guarded(fn, f"ensures#{lab}")) for (lab, fn) in c.ensures]
+    c.final = {k: guarded(fn, f"final#{k}") for k, fn in c.final.items()}
+    for r in c.raises:
+        r.when = guarded(r.when, "raises.when")
+    for key, sp in list(c.loops.items()):
+        sp.inv = guarded(sp.inv, f"loop invariant {sp.label}")
+        if getattr(sp, "result", None) is not None:
+            sp.result = guarded(sp.result, f"comprehension result {sp.label}")
+        sp.havoc = tuple(guarded(h, f"loop havoc {sp.label}") if callable(h) else h for h in sp.havoc)
+    return c
 
 
 def contracts(reg):
@@ -2454,7 +2562,21 @@ def contracts(reg):
     out.extend(build_contracts(reg))
     out.extend(member_contracts())
     out.extend(detect_contracts())
-    return out
+    return [guard_contract(c) for c in out]
+
+
+def post_report(c, rep):
+    """Round-3 policy: a refutation at the SMT level is NOT reported as a violation by itself.  Invariant-preservation VCs start from
+    a havocked state, clauses return False for shapes they do not recognise, loop cuts / EXC-ANY over-approximate: none of these is a
+    definite counterexample.  Every refuted obligation is handed to the native replayer as `unknown` (pyvc/check.py REPLAY_UNKNOWN):
+    it becomes a VIOLATION exactly when replay/C10.py reproduces a failing input on the real code, otherwise it is UNDECIDED."""
+    for o in rep.obligations:
+        if o.get("status") == "refuted":
+            o["status"] = "unknown"
+            o["reason"] = ("counter-model at the SMT level, not a definite counterexample by itself (" + (o.get("reason") or "no note") + ")")[:400]
+
+
+REPLAY_UNKNOWN = True
 
 
 def lemmas():
@@ -2480,8 +2602,8 @@ def lemmas():
     out.append(("C10/spec::7z-header/lemma#digests-defined-monotone.base", [dcnt_def(sl, pl, adl, b)], dcnt_mono_at(sl, pl, adl, a, z3.IntVal(0))))
     out.append(("C10/spec::7z-header/lemma#digests-defined-monotone.step", [b >= 0, dcnt_def(sl, pl, adl, b), dcnt_mono_at(sl, pl, adl, a, b), dcnt_mono_at(sl, pl, adl, b, b)],
                 dcnt_mono_at(sl, pl, adl, a, b + 1)))
-    out.append(("C10/spec::7z-layout/lemma#pack-prefix-sum-nonneg.base", [], PS(z3.IntVal(0)) >= 0))
-    out.append(("C10/spec::7z-layout/lemma#pack-prefix-sum-nonneg.step", [b >= 0, PS(b) >= 0, PSZ(b) > 0], PS(b + 1) >= 0))
+    out.append(("C10/spec::7z-layout/lemma#pack-prefix-sum-nonneg.base", [ps_def(b)], PS(z3.IntVal(0)) >= 0))
+    out.append(("C10/spec::7z-layout/lemma#pack-prefix-sum-nonneg.step", [b >= 0, ps_def(b), PS(b) >= 0, PSZ(b) > 0], PS(b + 1) >= 0))
     return out
 
 
